@@ -148,3 +148,10 @@ Definition hist_ok (pa : params) (script : list cmd) (s : state) (acc ret : list
   (exists pre, todo_of (nthr pa) script = pre ++ todo s /\ Forall (fun i => In (OPush (itask i)) pre) acc) /\
   cur s + todo_size (todo s) <= todo_size (todo_of (nthr pa) script) /\
   Forall (fun i => task_bounded (itask i)) (items s).
+
+(* the queue events of a whole Protocol trace *)
+Fixpoint qtrace (pa : params) (s : state) (tr : list label) : list Queue.event :=
+  match tr with
+  | [] => []
+  | l :: r => qevents pa s l ++ match step pa s l with Some s' => qtrace pa s' r | None => [] end
+  end.
